@@ -35,6 +35,7 @@ func genAnimParams(r *RNG, lossless bool, mixedPct int, alphaPct int, tier strin
 		p.CloseWF = GenWriteFault(r, 100, 200)
 	}
 	p.Parallel = r.Bool()
+	p.Spec.Reuse = r.Pct(25)
 	return p
 }
 
@@ -59,6 +60,9 @@ func shrinkAnim(pp any) []any {
 			q.Sched.Policy, q.Sched.Procs = vsim.PolCanonical, 1
 			q.Sched.PoolHitPct, q.Sched.PoolDropPm, q.Sched.PoolGCPm = 0, 0, 0
 		})
+	}
+	if p.Spec.Reuse {
+		add(func(q *AnimParams) { q.Spec.Reuse = false })
 	}
 	if p.Spec.FailAlt || p.Spec.FailBG {
 		add(func(q *AnimParams) { q.Spec.FailAlt, q.Spec.FailBG = false, false })
